@@ -258,12 +258,29 @@ def sample_variants():
 
 def converter(repo):
     f = repo.func("gene::Gene._init_alleles")
-    # the nested generator that turns a database row into Mutation records (by role, not by name)
-    pm = [n for n in f.body if isinstance(n, ast.FunctionDef) and any(isinstance(x, (ast.Yield, ast.YieldFrom)) for x in ast.walk(n))
-          and any(isinstance(c, ast.Call) and call_name(c) == "Mutation" for c in ast.walk(n))]
+    # the nested routine that turns a database row into Mutation records (by role, not by name): it builds Mutation(...) from a row
+    # (allele, position, change, annotation); a generator or a function returning the record (or None)
+    pm = [n for n in f.body if isinstance(n, ast.FunctionDef) and any(isinstance(c, ast.Call) and call_name(c) == "Mutation" for c in ast.walk(n))
+          and len(n.args.args) >= 3]
     if len(pm) != 1:
-        raise AnalysisError("nested variant converter (a generator yielding Mutation records) not found in Gene._init_alleles")
+        raise AnalysisError("nested variant converter (a routine building Mutation records from a database row) not found in Gene._init_alleles")
     return f, pm[0]
+
+
+def define_nested(ev, f):
+    """Every nested helper of `f` is defined in the evaluator (the converter may delegate to a sibling helper)."""
+    for n in f.body:
+        if isinstance(n, ast.FunctionDef):
+            ev._exec(n)
+
+
+def records(value):
+    """What the converter produced for one row, as a list: a generator / list of records, one record, or None."""
+    if value is None:
+        return []
+    if isinstance(value, tuple):
+        return [value]
+    return list(value)
 
 
 def r12(repo, res):
@@ -290,8 +307,8 @@ def r12(repo, res):
         for p, op in sample_variants():
             try:
                 ev = Evaluator(env, funcs={"rev_comp": rev_comp, "Mutation": Mut})
-                ev._exec(pm)
-                ys = ev.locals[pm.name]("a1", p, op, ["rs1", "X1Y"])
+                define_nested(ev, f)
+                ys = records(ev.locals[pm.name]("a1", p, op, ["rs1", "X1Y"]))
             except (Unfoldable, Raised) as e:
                 res.err("C08.R1", f"process_mutation outside folding language: {e}")
                 return
